@@ -8,7 +8,12 @@ D=/tmp/mut-$$
 git -C /repo worktree add -q --detach $D/wt HEAD
 ( cd $D/wt && ( git apply "$PATCH" 2>/dev/null || git apply --3way "$PATCH" ) )
 mkdir -p $D/verif
-rsync -a --exclude harness/target --exclude harness/target-verif --exclude work --exclude replays --exclude .git /verif/ $D/verif/ || [ $? -eq 24 ]
+# another job may be rebuilding lean/.lake while we copy: repeat until one pass sees no vanished file (rsync code 24)
+for try in 1 2 3 4 5 6; do
+  rsync -a --delete --exclude harness/target --exclude harness/target-verif --exclude work --exclude replays --exclude .git /verif/ $D/verif/ && break
+  [ $? -eq 24 ] || exit 2
+  sleep 20
+done
 grep -rl '/repo/' $D/verif/harness/*/Cargo.toml $D/verif/vlib/core.py $D/verif/extract.py 2>/dev/null | xargs sed -i "s#/repo/#$D/wt/#g; s#\"/repo\"#\"$D/wt\"#g"
 sed -i "s#/verif/harness/target#$D/target#" $D/verif/harness/.cargo/config.toml
 rc=0
